@@ -78,11 +78,16 @@ def gen_case(rng: random.Random, tier: str, bias: str = ''):
     dur = [rng.choice([0, 0, 1, 2, 5, 9]) for _ in range(n)]
     if bias == 'order' and n >= 2 and rng.random() < 0.5:
         dur = [max(0, 2 * (n - i) + rng.randrange(3)) for i in range(n)]
+    again = kind == 'parmap' and rng.random() < 0.5
+    if again and stop_after is not None and rng.random() < 0.6:
+        # calls beyond the stop position are long: they are still under way when the consumer leaves, and
+        # would overlap with the calls of a second consumption if the first one did not wait for them
+        dur = [d if i < stop_after else rng.choice([60, 100, 150]) for i, d in enumerate(dur)]
     ep = rng.choice([0.0, 0.0, 0.05, 0.2])     # timed waits (if the code has any) may expire at any moment
     ch = rng.choice([('random', ep), ('random', ep), ('sticky', 0.2, ep), ('sticky', 0.05, ep),
                      ('pct', 2, 300, ep), ('pct', 3, 300, ep)])
     return dict(kind=kind, n=n, src=src, cap=cap, conc=conc, rexc=rexc, retx=rng.random() < 0.4,
-                pre=pre, pf=pf, re=re, rv=rv, again=(kind == 'parmap' and rng.random() < 0.5), stop_after=stop_after,
+                pre=pre, pf=pf, re=re, rv=rv, again=again, stop_after=stop_after,
                 stop_mode=rng.choice(['close', 'close', 'del', 'throw']), dur=dur, chooser=list(ch),
                 seed=rng.randrange(1 << 30))
 
@@ -200,7 +205,7 @@ def run_case(case):
         if state['running'] > state['max_running']:
             state['max_running'] = state['running']
         try:
-            for _ in range(3):
+            for _ in range(12):
                 detsched.yield_here('work2')
             return x
         finally:
@@ -235,7 +240,7 @@ def run_case(case):
                     # the iteration ended early (close / failure): consume a second stream right away;
                     # calls left running by the first one would add to the concurrency (C08)
                     state['second'] = True
-                    second = Stream(list(range(BASE + n, BASE + n + 2 * conc))).parmap(
+                    second = Stream(list(range(BASE + n, BASE + n + 3 * conc))).parmap(
                         work2, executor='thread', concurrency=conc)
                     state['second_out'] = list(second)
             finally:
